@@ -421,7 +421,6 @@ def _build_bytes(family, p):
         return Spec(h, params, witnesses=wit)
 
     if family == 'reent':
-        from ..engine import decode_choice, encode_choice, notrace
         nmsg, nested = p['nmsg'], p['nested']
         raws0, exp0 = _real_messages(nmsg, (11, 5, 12, 6, 13), message, ref_msg)
         T = sum(len(r) for r in raws0)
